@@ -26,13 +26,14 @@ def relabel(inst, sig, tau):
 @guard
 def impl_batch(case):
     out = []
+    ctx = gslib.new_ctx(len(case["items"]))
     for item in case["items"]:
         try:
             inst = item["inst"]
-            a = gslib.call_gs(inst, case["oriented"], True)
+            a = gslib.call_gs(inst, case["oriented"], True, ctx=ctx)
             r = {"pairs": a}
             if "sig" in item:
-                b = gslib.call_gs(relabel(inst, item["sig"], item["tau"]), case["oriented"], True)
+                b = gslib.call_gs(relabel(inst, item["sig"], item["tau"]), case["oriented"], True, ctx=ctx)
                 r["relabelled_pairs"] = b
             out.append(r)
         except Exception as e:  # noqa
